@@ -1,1 +1,209 @@
 //! Verification facade (cfg-gated): daser family.  See `crate::verif`.
+//!
+//! * [`VEvents`]    — an `EventChannel` (publisher side is crate-private).
+//! * [`VDaser`]     — the real `Daser` worker started over a [`VP2p`] mock and any `Store`.
+//! * [`VMockDaser`] — the mocked `Daser` (same as the `#[cfg(test)]` `Daser::mocked`) whose
+//!   command channel the harness owns; used by the pruner family.
+
+use std::collections::HashSet;
+use std::sync::Arc;
+use std::time::Duration;
+
+use tokio::sync::{mpsc, oneshot};
+
+use crate::daser::{Daser, DaserArgs, DaserCmd, verif_shim};
+use crate::events::{EventChannel, EventPublisher, EventSubscriber};
+use crate::store::Store;
+use crate::verif::mock_p2p::VP2p;
+
+pub const MAX_SAMPLES_NEEDED: usize = verif_shim::MAX_SAMPLES_NEEDED;
+pub const PRUNER_THRESHOLD: u64 = verif_shim::PRUNER_THRESHOLD;
+pub const DEFAULT_CONCURENCY_LIMIT: usize = crate::daser::DEFAULT_CONCURENCY_LIMIT;
+pub const DEFAULT_ADDITIONAL_HEADER_SUB_CONCURENCY: usize =
+    crate::daser::DEFAULT_ADDITIONAL_HEADER_SUB_CONCURENCY;
+
+/// Forwards to the private `daser::random_indexes`.
+pub fn random_indexes(square_width: u16, max_samples_needed: usize) -> HashSet<(u16, u16)> {
+    verif_shim::random_indexes(square_width, max_samples_needed)
+}
+
+/// Forwards to `p2p::shwap::sample_cid`.
+pub fn sample_cid(row: u16, col: u16, height: u64) -> Result<cid::Cid, String> {
+    crate::p2p::shwap::sample_cid(row, col, height).map_err(|e| e.to_string())
+}
+
+/// An event channel; the harness subscribes, the workers get the publisher.
+pub struct VEvents {
+    channel: EventChannel,
+}
+
+impl VEvents {
+    pub fn new() -> VEvents {
+        VEvents {
+            channel: EventChannel::new(),
+        }
+    }
+
+    pub fn subscribe(&self) -> EventSubscriber {
+        self.channel.subscribe()
+    }
+
+    pub(crate) fn publisher(&self) -> EventPublisher {
+        self.channel.publisher()
+    }
+}
+
+impl Default for VEvents {
+    fn default() -> Self {
+        VEvents::new()
+    }
+}
+
+/// The real `Daser`.
+pub struct VDaser {
+    daser: Arc<Daser>,
+}
+
+/// `Daser::start` over the mocked p2p.  Must be called inside a tokio runtime.
+pub fn start_daser<S>(
+    p2p: &VP2p,
+    store: Arc<S>,
+    events: &VEvents,
+    sampling_window: Duration,
+    concurrency_limit: usize,
+    additional_headersub_concurrency: usize,
+) -> Result<VDaser, String>
+where
+    S: Store + 'static,
+{
+    let daser = Daser::start(DaserArgs {
+        p2p: p2p.p2p(),
+        store,
+        event_pub: events.publisher(),
+        sampling_window,
+        concurrency_limit,
+        additional_headersub_concurrency,
+    })
+    .map_err(|e| e.to_string())?;
+
+    Ok(VDaser {
+        daser: Arc::new(daser),
+    })
+}
+
+impl VDaser {
+    pub(crate) fn daser(&self) -> Arc<Daser> {
+        self.daser.clone()
+    }
+
+    pub fn stop(&self) {
+        self.daser.stop()
+    }
+
+    pub async fn join(&self) {
+        self.daser.join().await
+    }
+
+    pub async fn want_to_prune(&self, height: u64) -> Result<bool, String> {
+        self.daser
+            .want_to_prune(height)
+            .await
+            .map_err(|e| e.to_string())
+    }
+
+    pub async fn update_highest_prunable_block(&self, value: u64) -> Result<(), String> {
+        self.daser
+            .update_highest_prunable_block(value)
+            .await
+            .map_err(|e| e.to_string())
+    }
+
+    pub async fn update_number_of_prunable_blocks(&self, value: u64) -> Result<(), String> {
+        self.daser
+            .update_number_of_prunable_blocks(value)
+            .await
+            .map_err(|e| e.to_string())
+    }
+}
+
+/// Reply channel of a `WantToPrune` question.
+#[derive(Debug)]
+pub struct VPruneReply {
+    respond_to: oneshot::Sender<bool>,
+}
+
+impl VPruneReply {
+    /// `false` if the asking side is gone.
+    pub fn send(self, allow: bool) -> bool {
+        self.respond_to.send(allow).is_ok()
+    }
+}
+
+/// Public mirror of `DaserCmd`.
+#[derive(Debug)]
+pub enum VDaserCmd {
+    WantToPrune {
+        height: u64,
+        respond_to: VPruneReply,
+    },
+    UpdateHighestPrunableHeight {
+        value: u64,
+    },
+    UpdateNumberOfPrunableBlocks {
+        value: u64,
+    },
+}
+
+/// A mocked `Daser` plus the harness-side end of its command channel.
+pub struct VMockDaser {
+    daser: Arc<Daser>,
+    cmd_rx: mpsc::Receiver<DaserCmd>,
+}
+
+impl VMockDaser {
+    /// Must be called inside a tokio runtime (a dummy task is spawned for the join handle).
+    pub fn new() -> VMockDaser {
+        let (daser, cmd_rx) = Daser::verif_mocked();
+        VMockDaser {
+            daser: Arc::new(daser),
+            cmd_rx,
+        }
+    }
+
+    pub(crate) fn daser(&self) -> Arc<Daser> {
+        self.daser.clone()
+    }
+
+    fn convert(cmd: DaserCmd) -> VDaserCmd {
+        match cmd {
+            DaserCmd::WantToPrune { height, respond_to } => VDaserCmd::WantToPrune {
+                height,
+                respond_to: VPruneReply { respond_to },
+            },
+            DaserCmd::UpdateHighestPrunableHeight { value } => {
+                VDaserCmd::UpdateHighestPrunableHeight { value }
+            }
+            DaserCmd::UpdateNumberOfPrunableBlocks { value } => {
+                VDaserCmd::UpdateNumberOfPrunableBlocks { value }
+            }
+        }
+    }
+
+    /// Non-blocking: the next command already queued by the pruner, if any.
+    pub fn try_next_cmd(&mut self) -> Option<VDaserCmd> {
+        let cmd = self.cmd_rx.try_recv().ok()?;
+        Some(Self::convert(cmd))
+    }
+
+    /// Blocking: waits for the next command (`None` when every sender is gone).
+    pub async fn next_cmd(&mut self) -> Option<VDaserCmd> {
+        let cmd = self.cmd_rx.recv().await?;
+        Some(Self::convert(cmd))
+    }
+}
+
+impl Default for VMockDaser {
+    fn default() -> Self {
+        VMockDaser::new()
+    }
+}
